@@ -11,6 +11,7 @@ GRAMMARS = [
     ('start: expr\n?expr: term | expr "+" term\n?term: NUM | "(" expr ")"\nNUM: /[0-9]+/\n%ignore " "', ['1+2', '(1+2)+3', '1+', '((1))', '1+2+3+4']),
     ('start: _list\n_list: X | _list "," X\nX: "x"', ['x', 'x,x', 'x,x,x,x', 'x,']),
     ('start: a* b?\na: "a" ";"\nb: "b"', ['a;a;b', 'b', 'a;', '']),
+    ('start: (k X)*\nk: "\u4e2d" | "\u00df"\nX: "x"', ['\u4e2dx', '\u4e2dx\u00dfx', '\u4e2d']),       # anonymous terminals named after characters without case
 ]
 fail = None
 evals = distinct = 0
@@ -23,9 +24,14 @@ def tree_of(p, text):
         return ('err', type(e).__name__, getattr(e, 'pos_in_stream', None))
 
 
+fails = []
+
+
 def note(key, inp, obs, req):
     global fail
-    fail = fail or {'key': key, 'input': inp, 'observed': obs, 'required': req}
+    if not any(f['key'] == key for f in fails):
+        fails.append({'key': key, 'input': inp, 'observed': obs, 'required': req})
+    fail = fails[0]
 
 
 for g, texts in GRAMMARS:
@@ -55,7 +61,8 @@ for g, texts in GRAMMARS:
                     except UnexpectedToken:
                         can = False
                     if can != (t in acc):
-                        note('accepts', {'grammar': g, 'text': text, 'fed': i, 'terminal': t}, {'in accepts': t in acc}, {'feedable': can})
+                        # a terminal whose name has no cased character is invisible to accepts() (it tests name.isupper()): its own class
+                        note('accepts' if t.isupper() else 'accepts-noncased-terminal', {'grammar': g, 'text': text, 'fed': i, 'terminal': t}, {'in accepts': t in acc}, {'feedable': can})
                 if not acc <= set(ip.choices()):
                     note('accepts', {'grammar': g, 'text': text, 'fed': i}, sorted(acc), 'subset of choices()')
                 # fork: a copy resumed to the end must give what the whole parse gives, and must not disturb ip
@@ -125,6 +132,6 @@ if not fail:
             exp = tree_of(p, cleaned)
             if got[0] == 'ok' and exp[0] == 'ok' and got[1] != exp[1]:
                 note('resume-after-error', {'grammar': g, 'text': text}, str(got[1]), 'parse(%r) = %s' % (cleaned, exp[1]))
-res = {'fails': bool(fail), 'evaluations': evals, 'distinct': distinct, 'failures': [fail] if fail else []}
+res = {'fails': bool(fails), 'evaluations': evals, 'distinct': distinct, 'failures': fails}
 if fail: res.update(input=fail['input'], observed=fail['observed'], required=fail['required'])
 print(json.dumps(res, default=str))
